@@ -19,12 +19,15 @@ TARGETS = [
     ("trait_notifiers.py", "TraitChangeNotifyWrapper", "_dispatch_change_event"),
     ("trait_notifiers.py", "TraitChangeNotifyWrapper", "_notify_function_listener"),
     ("trait_notifiers.py", "TraitChangeNotifyWrapper", "_notify_method_listener"),
+    ("trait_notifiers.py", "TraitChangeNotifyWrapper", "equals"),
     ("observation/_has_traits_helpers.py", None, "ctrait_prevent_event"),
     ("observation/_trait_event_notifier.py", "TraitEventNotifier", "__call__"),
 ]
 
-ATTRS = {"type", "comparison_mode", "old", "new", "object", "name", "handler", "notify_listener"}
-GLOBS = {"Uninitialized": "Uninitialized", "_pre_change_event_tracer": "pre_tracer",
+ATTRS = {"type": "type", "comparison_mode": "comparison_mode", "old": "old", "new": "new", "object": "object",
+         "name": "name", "handler": "handler", "notify_listener": "notify_listener", "__self__": "dunder_self",
+         "__name__": "dunder_name"}
+GLOBS = {"Uninitialized": "Uninitialized", "MethodType": "MethodType", "_pre_change_event_tracer": "pre_tracer",
          "_post_change_event_tracer": "post_tracer"}
 ENUMS = {"TraitKind": "Generated.traitKindMembers", "ComparisonMode": "Generated.comparisonModeMembers"}
 SELF_METHODS = {"argument_transform": "argument_transform", "dispatch": "dispatch",
@@ -82,7 +85,7 @@ class Tr:
                 return '(.enumMember %s "%s")' % (ENUMS[v.id], e.attr)
             if e.attr not in ATTRS:
                 raise Unsupported("attribute .%s" % e.attr)
-            return "(.attr %s .%s)" % (self.expr(v), e.attr)
+            return "(.attr %s .%s)" % (self.expr(v), ATTRS[e.attr])
         if isinstance(e, ast.Compare):
             if len(e.ops) != 1:
                 raise Unsupported("chained comparison")
@@ -125,6 +128,8 @@ class Tr:
                 return self.mk("change_accepted", self.args(c))
             if f.id == "bool":
                 return self.mk("bool", self.args(c))
+            if f.id == "type" and len(c.args) == 1:
+                return self.mk("type_of", self.args(c))
             if f.id == "getattr":
                 return self.mk("getattr", self.args(c))
             if f.id == "handle_exception":
@@ -149,6 +154,8 @@ class Tr:
                     if not a:
                         return self.mk("weak_deref", ["(.attr (.loc %d) .handler)" % self.slots["self"]])
                     return self.mk("user_handler", a)
+                if f.attr == "object" and not c.args:
+                    return self.mk("owner_deref", [self.expr(v)])
                 if f.attr == "target" and not c.args:
                     return self.mk("weak_deref", [self.expr(v)])
                 if f.attr == "dispatcher":
